@@ -26,7 +26,7 @@ Reset == /\ Ev("reset")
   /\ pendA' = <<>> /\ seenCred' = [s \in Streams |-> 0] /\ seenCredC' = 0
 
 \* --- logged: A hands a frame to the wire
-LogA == /\ (Ev("a_data") \/ Ev("a_headers") \/ Ev("a_cont") \/ Ev("a_rst") \/ Ev("a_push") \/ Ev("a_prio") \/ Ev("a_ping") \/ Ev("a_goaway") \/ Ev("a_close"))
+LogA == /\ (Ev("a_data") \/ Ev("a_headers") \/ Ev("a_cont") \/ Ev("a_rst") \/ Ev("a_push") \/ Ev("a_prio") \/ Ev("a_ping") \/ Ev("a_goaway") \/ Ev("a_close") \/ Ev("a_unknown"))
         /\ pendA' = Append(pendA, T)
         /\ UNCHANGED <<vars, seenCred, seenCredC>>
 \* --- unlogged: relayFrames reads it and processFrame runs
@@ -41,6 +41,7 @@ ProcA == /\ pendA # <<>> /\ pendA' = Tail(pendA)
                 [] e.ev = "a_ping"    -> ASendPing(e.n)
                 [] e.ev = "a_goaway"  -> ASendGoAway
                 [] e.ev = "a_close"   -> ASendClose
+                [] e.ev = "a_unknown" -> ASendUnknown
          /\ UNCHANGED <<l, seenCred, seenCredC>>
 \* --- logged: B sends a control frame
 LogB == /\ Ev("b_ctl") /\ BCtl([t |-> T.t, s |-> T.s, v |-> T.v])
